@@ -417,4 +417,43 @@ theorem source_GetProfiles_is_modelled :
   "return profiles"] := by
   rfl
 
+/-! ## round 6: the loader side (`Model/SelectLoad.lean`) -/
+
+/-- `loader.modelToProject` — modelled by `loadApply`: `Transform`, then `WithProfiles(opts.Profiles)` unconditionally, then the
+consistency check unless skipped, then the environment resolution unless skipped — in this order -/
+theorem source_modelToProject_tail_is_modelled :
+    CV.Gen.c15_modelToProject_tail = [
+  "err = Transform(dict, project)",
+  "if project, err = project.WithProfiles(opts.Profiles); err != nil",
+  "project, err = project.WithProfiles(opts.Profiles)",
+  "if !opts.SkipConsistencyCheck",
+  "err := checkConsistency(project)",
+  "if !opts.SkipResolveEnvironment",
+  "project, err = project.WithServicesEnvironmentResolved(opts.discardEnvFiles)"] := by
+  rfl
+
+/-- the `depends_on` loop of `loader.checkConsistency` — modelled by `depOffence` / `checkDeps`: `GetService` must succeed, or fail
+with `ErrDisabled` on an edge that is not required -/
+theorem source_checkConsistency_dependsOn_is_modelled :
+    CV.Gen.c15_checkConsistency_dependsOn = [
+  "for dependedService, cfg := range s.DependsOn",
+  "if _, err := project.GetService(dependedService); err != nil",
+  "_, err := project.GetService(dependedService)",
+  "if errors.Is(err, errdefs.ErrDisabled) && !cfg.Required",
+  "return fmt.Errorf(\"service %q depends on undefined service %q: %w\", s.Name, dependedService, errdefs.ErrInvalid)"] := by
+  rfl
+
+/-- `cli.WithDefaultProfiles` — modelled by `defaultProfiles`: no given profile ⇒ `COMPOSE_PROFILES` split at `,`, each piece
+`TrimSpace`d; the result goes to `loader.WithProfiles` -/
+theorem source_WithDefaultProfiles_is_modelled :
+    CV.Gen.c15_WithDefaultProfiles = [
+  "func (profiles ...string) ProjectOptionsFn",
+  "return func(o *ProjectOptions) error { …",
+  "if len(profiles) == 0",
+  "for _, s := range strings.Split(o.Environment[consts.ComposeProfiles], \",\")",
+  "profiles = append(profiles, strings.TrimSpace(s))",
+  "o.loadOptions = append(o.loadOptions, loader.WithProfiles(profiles))",
+  "return nil"] := by
+  rfl
+
 end CV.Sel
